@@ -42,7 +42,7 @@ def run(ctx):
 
 
 def replay(ctx, rec):
-    if rec.get('workload') == 'fault':
+    if rec.get('workload') in ('fault', 'guard-threads'):
         from .. import w_fault
         return w_fault.replay(ctx, rec)
     monitor.enable(*monitors(ctx))
